@@ -73,7 +73,9 @@ def chain_case(draw):
 def cases(draw):
     if draw(st.integers(0, 4)) == 0:
         return draw(chain_case())
-    g = draw(gg.general(inst_props=(RDF_TYPE, RDF_TYPE, RDF_TYPE, "http://ex.org/isA")))
+    odd = draw(st.integers(0, 3)) == 0
+    g = draw(gg.general(inst_props=(RDF_TYPE, RDF_TYPE, RDF_TYPE, "http://ex.org/isA"), class_typing=odd, iri_like_literals=odd,
+                        hash_props=draw(st.integers(0, 3)) == 0))
     cfg = draw(gg.switches())
     cfg["instances_report_mode"] = draw(st.sampled_from(["mixed", "ratio"]))
     if draw(st.booleans()):
@@ -242,6 +244,13 @@ def check(case):
             # rdflib 6.0.2's Turtle serializer treats rdf:type as the keyword 'a' when collecting prefixes, also in object
             # position (sh:path rdf:type), so 'rdf:' stays undeclared unless another rdf: term occurs
             return known("C05-SHACL-RDFPREFIX", probs[0], labels, nt)
+        if fmt == "ShEx" and len(probs) == 1 and "bad value set member ('punct', '@')" in probs[0] and "[@<" in text \
+                and cfg.get("inverse_paths"):
+            inst_prop_ = case["g"]["inst_prop"]
+            instances = {s_[1] for s_, p_, o_ in triples if p_ == inst_prop_}
+            if any(p_ == inst_prop_ and s_[0] == "bnode" and o_[1] in instances for s_, p_, o_ in triples):
+                # a blank node as member of an inverse instantiation value set ('^rdf:type [_:b]') has no ShExC rendering
+                return known("C05-BNODEVALUESET", probs[0], labels, nt)
         sns = cfg.get("shapes_namespace")
         if sns and sns != refmodel.SHAPES_NS and all(("reference to undefined shape <" + refmodel.SHAPES_NS in p) or p.startswith("sh:node object " + refmodel.SHAPES_NS) for p in probs):
             # C05-SHAPESNS: references are written in the default shapes namespace (pinned by a golden file)
